@@ -290,6 +290,11 @@ func finish(verifDir string, prop *Property, tier string, seed int, reports []*R
 	if !partialRun {
 		writeJSON(filepath.Join(evDir, prop.ID+".json"), ev)
 	}
+	if d := os.Getenv("DBCHECK_OBLIG_DIR"); d != "" {
+		// development aid (tools/anchor_gaps.py): the full obligation list, not only the samples
+		_ = os.MkdirAll(d, 0o755)
+		writeJSON(filepath.Join(d, prop.ID+".oblig.json"), all)
+	}
 
 	fmt.Printf("property=%s tier=%s configs=%v obligations=%d discharged=%d known=%d violations=%d wall=%.1fs\n",
 		prop.ID, tier, cfgs, len(all), discharged, len(knownMatched), len(viol), wall)
